@@ -1,13 +1,13 @@
 SPECIFICATION GSpec
 CONSTANTS
-  Tables = {"desc3", "gap3"}
+  Tables = {"gap3"}
   Shapes = {"rw", "w"}
   Xs = {0, 1, 2, 3, 4, 5, 6, 7, 8}
-  XW = {2, 6}
-  WPos = {1}
+  XW = {2}
+  WPos = {0}
   APos = {2}
   Reads = {"ri"}
-  Depth = 5
+  Depth = 7
 CONSTRAINT Bound
 INVARIANT Emit1
 CHECK_DEADLOCK FALSE
